@@ -122,6 +122,14 @@ def check_verdict(ck):
     """CollisionTask::collides over parry oracles"""
     eng = ck.engine(); rec = {}; install_collections(eng, rec)
     eng.overrides[eng.find('collisions::build_trimesh_from_aabb')] = lambda e, st, fr, f, a: [(st, Opaque('mesh', 'aabbmesh', data=a[0]))]
+    # poses are tokens here; a query may also be posed in the frame of one body: identity and a^-1 b become tokens of their own
+    def ident(e, st_, fr, f, a, m): return [(st_, pose('identity'))]
+    def inv_mul(e, st_, fr, f, a, m):
+        x, y = e.deref(st_, a[0]), e.deref(st_, a[1])
+        if isinstance(x, Opaque) and isinstance(y, Opaque) and x.kind == y.kind == 'pose': return [(st_, pose(f'rel({x.name},{y.name})'))]
+        return NotImplemented
+    eng.model(r'isometry_construction::<impl .*Isometry<f32.*>::identity$', ident, front=True)
+    eng.model(r'Isometry<f32.*>::inv_mul$|Isometry::<f32.*>::inv_mul$', inv_mul, front=True)
     table = MapOracle('tbl'); st = eng.new_state()
     safety = Agg([F(z3.Real('to_env')), F(z3.Real('to_robot')), table, Enum(1, [], 'CheckMode')], 'collisions::SafetyDistances')
     for (i, j) in ((2, 5), (5, 2), (3, ENV + 1), (J_TOOL, J_BASE)):
@@ -133,16 +141,55 @@ def check_verdict(ck):
         s1, out = res[0]; ck.states += 1
         calls = rec['parry'][n0:]
         r = spec_min_distance(table, i, j)
-        direct = [c for c in calls if c['q'] == 'intersection_test' and [getattr(x, 'name', None) for x in c['args']] == ['pi', 'mi', 'pj', 'mj']]
-        dist = [c for c in calls if c['q'] == 'distance' and [getattr(x, 'name', None) for x in c['args']] == ['pi', 'mi', 'pj', 'mj']]
+        # the two bodies at their poses, in either order, or posed in the frame of the first of them (what parry does internally)
+        BOTH = (['pi', 'mi', 'pj', 'mj'], ['pj', 'mj', 'pi', 'mi'], ['identity', 'mi', 'rel(pi,pj)', 'mj'], ['identity', 'mj', 'rel(pj,pi)', 'mi'])
+        direct = [c for c in calls if c['q'] == 'intersection_test' and [getattr(x, 'name', None) for x in c['args']] in BOTH]
+        dist = [c for c in calls if c['q'] == 'distance' and [getattr(x, 'name', None) for x in c['args']] in BOTH]
         pre = [c for c in calls if c['q'] == 'intersection_test' and any(getattr(x, 'name', None) == 'aabbmesh' for x in c['args'])]
         label = f'CollisionTask({i},{j})::collides: '
         case = lambda m=None: dict(clause='verdict', pair=[i, j])
         ok = bool(direct) and bool(dist) and bool(pre)
         ck.decide(label + 'uses an intersection test of the two bodies, their distance, and the loosened-box pre-filter', eng, [], z3.BoolVal(not ok), case, nomodel_case=case)
         if not ok: continue
+        # the pre-filter must place the loosened box with the pose of the body it was built from and the other mesh with its own pose
+        # (or both in the frame of the box's body); only then does the geometric assumption below say anything about it
+        owner = {'mi': 'pi', 'mj': 'pj'}
+        def conds(x, acc):
+            d = getattr(x, 'data', None)
+            if isinstance(d, tuple) and d and d[0] == 'ite': acc[str(d[1])] = d[1]; conds(d[2], acc); conds(d[3], acc)
+            elif isinstance(d, tuple) and d and d[0] in ('of', 'loosened'): conds(d[-1], acc)
+            elif isinstance(d, Opaque): conds(d, acc)
+            return acc
+        def pick(x, asg):
+            d = getattr(x, 'data', None)
+            if isinstance(d, tuple) and d and d[0] == 'ite': return pick(d[2] if asg[str(d[1])] else d[3], asg)
+            return x
+        def box_owner(x, asg):
+            x = pick(x, asg); d = getattr(x, 'data', None)
+            if isinstance(x, Opaque) and x.kind == 'mesh' and x.name == 'aabbmesh' and isinstance(d, Opaque): return box_owner(d, asg)
+            if isinstance(x, Opaque) and x.kind == 'aabb' and isinstance(d, tuple) and d[0] in ('of', 'loosened'): return box_owner(d[-1], asg)
+            return x if isinstance(x, Opaque) and x.kind == 'mesh' and x.name in owner else None
+        def well_placed(c):
+            a = c['args']
+            if len(a) != 4 or not all(isinstance(x, Opaque) for x in a): return False
+            cs = {}
+            for x in a: conds(x, cs)
+            if len(cs) > 4: return False
+            keys = sorted(cs)
+            for bits in range(1 << len(keys)):
+                asg = {k: bool(bits >> n & 1) for n, k in enumerate(keys)}
+                b = [pick(x, asg) for x in a]
+                if b[1].name == 'aabbmesh': pb, box, po, other = b
+                elif b[3].name == 'aabbmesh': po, other, pb, box = b
+                else: return False
+                bx = box_owner(box, asg)
+                if bx is None or not (other.kind == 'mesh' and other.name in owner and other.name != bx.name): return False
+                if (pb.name, po.name) not in ((owner[bx.name], owner[other.name]), ('identity', f'rel({owner[bx.name]},{owner[other.name]})')): return False
+            return True
+        good = [p for p in pre if well_placed(p)]
+        ck.decide(label + 'the loosened box is placed with the pose of the body it encloses, the other mesh with its own', eng, [], z3.BoolVal(len(good) != len(pre)), case, nomodel_case=case)
         # geometric assumption (outside the claim): bodies within r of each other are met by the box of the smaller one loosened by r
-        assume = [z3.Implies(d['res'] <= r, p['res']) for d in dist for p in pre]
+        assume = [z3.Implies(d['res'] <= r, p['res']) for d in dist for p in good]
         spec = z3.If(r <= NEVER, False, z3.If(r == 0, direct[0]['res'], dist[0]['res'] <= r))
         hit = zb(out.disc == 1) if isz(out.disc) else z3.BoolVal(out.disc == 1)
         ck.decide(label + 'reported <=> (touch-only: intersect; r>0: distance <= r; never-collides: no)', eng, list(s1.pc) + assume, hit != spec, case, nomodel_case=case)
